@@ -440,8 +440,15 @@ impl Prop for C15 {
                 let (text, expected) = grid_program(k % GRID_KINDS.len(), k / GRID_KINDS.len());
                 let source = format!("grid:{}", GRID_KINDS[k % GRID_KINDS.len()]);
                 let r = check_text(sh, &text, &source, true).and_then(|_| match impl_run::run_src(&text, &RunOpts::budget(400_000)) {
-                    Ok(out) if out.stdout_str() != expected => Err(Violation::new(format!("dynamic:branch-lands-elsewhere:{}", source), "constructs at different positions interfere: not every construct ran its own body exactly once", json!({"program": text, "source": source})).exp_obs(expected.chars().take(200).collect::<String>(), out.stdout_str().chars().take(200).collect::<String>())),
-                    _ => Ok(()),
+                    Ok(out) if out.stdout_str() == expected => {
+                        sh.class(&format!("grid-ran-as-expected:{}", source));
+                        Ok(())
+                    }
+                    Err(e) => {
+                        sh.discard(&format!("grid program not accepted ({}): {}", source, e.class()));
+                        Ok(())
+                    }
+                    Ok(out) => Err(Violation::new(format!("dynamic:branch-lands-elsewhere:{}", source), "constructs at different positions interfere: not every construct ran its own body exactly once", json!({"program": text, "source": source})).exp_obs(expected.chars().take(200).collect::<String>(), out.stdout_str().chars().take(200).collect::<String>())),
                 });
                 if !sh.report(r) {
                     return;
